@@ -412,6 +412,6 @@ PrintLiteral ==
         PrintT(<<"LC", e, i, pre, post, RuleA(pre), RuleA(post)>>))
 
 \* to the rule the three line-end forms of a text are the same text
-EolInvisible == tb \/ \A e \in EolNames : RuleA(ConvEol(inp, e)) = RuleA(inp)
+EolInvisible == tb \/ LET o == RuleA(inp) IN \A e \in {"crlf", "cr"} : RuleA(ConvEol(inp, e)) = o
 
 =============================================================================
